@@ -1,4 +1,6 @@
 import BppProofs.Lemmas.OptimCount2
+import BppProofs.Lemmas.OptimMonotone
+import BppProofs.Props.C10
 import BppProofs.Props.C10Budget
 import BppProofs.Props.C10Golden
 import BppProofs.Props.C10Brent
@@ -17,7 +19,10 @@ the log of the harness objective) for Powell, conjugate gradient and BFGS.  Here
   exit is exactly the number of calls made since `optimize` began, plus one;
 * `golden_final_call`, `brent_final_call`, `simplex_final_call`: the redefinitions of `optimize` of the
   three that have one make exactly one call after the template's loop;
-* `nback_monotone`, `simplex_monotone` (every scalar type, every function object);
+* `nback_monotone`, `simplex_monotone`, and (audit round 1) `newton1d_monotone`, `simple_multi_monotone`,
+  `simple_newton_monotone`, `meta_monotone` (every scalar type, every function object): with the instances of
+  `C10Golden`, `C10Brent`, `C10Budget` every optimiser of the quantifier now has one, so `optimize_terminates`
+  and `budget` apply to all eleven (`all_optimisers_terminate` spells the four new cases out);
 * `newton1d_calls_exceed_cap`: the clause is **false** of `NewtonOneDimension` as modelled (known finding
   C10-counter-undercount, kept on record): a run over `ℝ` with `nbEvalMax = 3` whose last step begins after
   7 calls; `newton1d_calls_exceed_cap_rat`: the same run in exact `Rat` arithmetic, evaluated by the kernel.
@@ -35,6 +40,43 @@ theorem nback_monotone (I : FunI F α) : Monotone (nbackAlgo I) := nbackAlgo_mon
 /-- `doStep` of the downhill simplex method does not move the counter backwards and leaves the cap alone;
 its stop condition touches neither -/
 theorem simplex_monotone (I : FunI F α) : Monotone (simplexAlgo I) := simplexAlgo_monotone I
+
+/-- `NewtonOneDimension::doStep` does not touch the counter (the loop of `optimize` does the counting) -/
+theorem newton1d_monotone (I : FunI F α) : Monotone (newtonAlgo I) := newtonAlgo_monotone I
+
+/-- `SimpleMultiDimensions::doStep` adds the inner Brent optimiser's counter for every coordinate -/
+theorem simple_multi_monotone (I : FunI F α) (fuel : Nat) : Monotone (simpleAlgo I fuel) := simpleAlgo_monotone I fuel
+
+/-- `SimpleNewtonMultiDimensions::doStep` adds the inner Newton optimiser's counter for every coordinate -/
+theorem simple_newton_monotone (I : FunI F α) (fuel : Nat) : Monotone (snewtonAlgo I fuel) := snewtonAlgo_monotone I fuel
+
+/-- `MetaOptimizer::doStep` (modelled configuration) adds the counter of every optimiser that has parameters -/
+theorem meta_monotone (I : FunI F α) (log10 : α → α) (fuel : Nat) : Monotone (metaAlgo I log10 fuel) :=
+  metaAlgo_monotone I log10 fuel
+
+/-- **all_optimisers_terminate**: `optimize_terminates` for the four optimisers that had no `Monotone`
+instance.  What it says, and what it does not: the `for` loop of `AbstractOptimizer::optimize` makes at
+most `nbEvalMax - 1` iterations (with that much fuel the modelled loop never runs out of it), and an
+exception that comes out of it was raised by one of the steps.  It does **not** bound what happens
+*inside* a step: the steps of the coordinate-wise Brent optimiser and of the meta-optimiser (and `doInit`
+of the golden section search and of Brent's method, the line minimisations of Powell and the conjugate
+gradient optimiser) call `bracketMinimum`, whose loop `while (b.f > c.f)` has no bound in the source — the
+cap `nbEvalMax_` is not consulted there; on an objective that decreases for ever it does not return.  The
+model gives that loop fuel and ends with `Exc.hang` when it runs out: a `.hang` is one of the errors "raised
+by one of the steps" here.  "The run terminates" is proved for the outer loop only. -/
+theorem all_optimisers_terminate (I : FunI F α) (log10 : α → α) (fuel' fuel : Nat) :
+    (∀ s : St F (Newton1 α) α, s.core.nbEvalMax ≤ fuel + 1 →
+      ∀ k, (newtonAlgo I).optimize (fuel + k) s = (newtonAlgo I).optimize fuel s) ∧
+    (∀ s : St F (Simple α) α, s.core.nbEvalMax ≤ fuel + 1 →
+      ∀ k, (simpleAlgo I fuel').optimize (fuel + k) s = (simpleAlgo I fuel').optimize fuel s) ∧
+    (∀ s : St F (SNewton α) α, s.core.nbEvalMax ≤ fuel + 1 →
+      ∀ k, (snewtonAlgo I fuel').optimize (fuel + k) s = (snewtonAlgo I fuel').optimize fuel s) ∧
+    (∀ s : St F (Meta α) α, s.core.nbEvalMax ≤ fuel + 1 →
+      ∀ k, (metaAlgo I log10 fuel').optimize (fuel + k) s = (metaAlgo I log10 fuel').optimize fuel s) :=
+  ⟨fun s hf => (optimize_terminates _ (newton1d_monotone I) s fuel hf).1,
+   fun s hf => (optimize_terminates _ (simple_multi_monotone I fuel') s fuel hf).1,
+   fun s hf => (optimize_terminates _ (simple_newton_monotone I fuel') s fuel hf).1,
+   fun s hf => (optimize_terminates _ (meta_monotone I log10 fuel') s fuel hf).1⟩
 
 end template
 
